@@ -9,6 +9,9 @@
      * C14_coeffs_mode_product  : the new coefficient array is, cell by cell, the product of the old array with the transfer
                                   matrix along the convolved dimension (index arithmetic of the four nested loops); with exact
                                   arithmetic the accumulation is the plain dot product.
+     * C14_loop_nest_is_cellwise: the same update written as the code runs it (slabs, rows, one row update per (j, l); the form
+                                  the executed model uses, linear in the array sizes) returns the same table as the positional form
+                                  the other theorems are about — any well-formed table, any arithmetic.
      * C14_trafo_is_conv_lowdeg_order0 / _order1 : for spline order 0 resp. 1 and a 2-knot (box) kernel the transfer-matrix
                                   entry equals the B-spline coefficient of the exact convolution integral (closed forms) —
                                   anchors the sign (k odd and k even) and the normalisation q!(k-1)!/(k+q-1)!.
@@ -17,7 +20,7 @@
    same Gallina term at Qc, expanded in the new basis, with an exact piecewise-polynomial integral (tools/props/C14.py).
    Rounding (double divided differences, float stores) is measured, not proved. *)
 From Coq Require Import ZArith QArith Qcanon List Bool Permutation.
-From PS Require Import Arith EvalModel ConvModel C14_Proofs.
+From PS Require Import Arith EvalModel ConvModel C14_Proofs C14_Rows.
 Import ListNotations.
 
 Section SortOracle.
@@ -80,6 +83,14 @@ Theorem C14_coeffs_mode_product {A : Arith} (fact : nat -> Z) (flip : bool) (sor
       = dot_along row (c_coef t) s2 (c_naxes d) i k).
 Proof. exact (coeffs_mode_product fact flip sort t dim kk i j k). Qed.
 
+(* the four nested loops as written — for i < stride1: for j < naxes_new: for l < naxes_old: for k < stride2: target[i][j][k] += trafo[j][l]*old[i][l][k] —
+   (ConvModel.convolve_rows_with: the old array cut into slabs and rows, the k loop one row update) give the table of the positional form *)
+Theorem C14_loop_nest_is_cellwise {A : Arith} (fact : nat -> Z) (flip : bool) (sort : list (T A) -> list (T A))
+        (t : @ctable A) (dim : nat) (kk : list (T A)) :
+  wf_table t = true -> (dim < length (c_dims t))%nat ->
+  convolve_rows_with fact flip sort t dim kk = convolve_with fact flip sort t dim kk.
+Proof. exact (convolve_rows_eq fact flip sort t dim kk). Qed.
+
 (* strides[i] is the product of the later extents (so s2 above is the new stride of the convolved dimension) *)
 Theorem C14_strides_row_major (l : list nat) (i : nat) :
   (i < length l)%nat -> nth i (fst (strides_of l)) 0%nat = prodn (skipn (S i) l).
@@ -126,6 +137,11 @@ Example C14_structure_hypotheses_hold :
   /\ (let t' := convolve (@isort QcA) ex2d_table 1 tri_kernel in
       c_order (nth 1 (c_dims t') dummy_dim) = 3%nat /\ c_nknots (nth 1 (c_dims t') dummy_dim) = 15%nat /\ wf_table t' = true).
 Proof. repeat split; vm_compute; auto. Qed.
+Example C14_loop_nest_instance :
+  wf_table ex2d_table = true /\ (0 < length (c_dims ex2d_table))%nat
+  /\ convolve_rows (@isort QcA) ex2d_table 0 tri_kernel = convolve (@isort QcA) ex2d_table 0 tri_kernel
+  /\ length (c_coef (convolve_rows (@isort QcA) ex2d_table 0 tri_kernel)) = 24%nat.
+Proof. repeat split; vm_compute; auto. Qed.
 Example C14_lowdeg0_instance :
   (@trafo_entry QA (norm_with factorial false 1 1) [0; 1; 3]%Q [-1 # 2; 1 # 2]%Q [-1 # 2; 1 # 2; 1 # 2; 3 # 2; 5 # 2; 7 # 2]%Q 1 1 2 0
    == conv_box0 0 1 (-1 # 2) (1 # 2) (3 # 2))%Q
@@ -135,6 +151,7 @@ Proof. repeat split; vm_compute; reflexivity. Qed.
 Print Assumptions C14_structure.
 Print Assumptions C14_structure_executed.
 Print Assumptions C14_coeffs_mode_product.
+Print Assumptions C14_loop_nest_is_cellwise.
 Print Assumptions C14_strides_row_major.
 Print Assumptions C14_trafo_is_conv_lowdeg_order0.
 Print Assumptions C14_trafo_is_conv_lowdeg_order1.
